@@ -1,6 +1,7 @@
 package prio
 
 import (
+	"strings"
 	"context"
 	"errors"
 	"fmt"
@@ -82,6 +83,7 @@ type exec struct {
 	created  atomic.Bool
 
 	leakScan   bool
+	before     map[string]string // library goroutines that existed before the case (leak scan)
 	terminated bool
 	termFinal  bool
 	stopIssued bool
@@ -522,6 +524,11 @@ func (e *exec) wait() {
 		return
 	}
 	e.termFinal = true
+	if e.leakScan && !e.cleanup.Load() {
+		// the discipline has just been seen terminated and everything is quiescent: by now
+		// nothing it started may be left (no virtual time has passed since the observation)
+		e.scanLocked("at the first quiescent point after termination was observed")
+	}
 	e.tr.TermInFlight = len(e.live)
 	e.tr.TermAllClosed = true
 	e.tr.TermPending = 0
@@ -533,6 +540,24 @@ func (e *exec) wait() {
 			e.tr.TermAllClosed = false
 		}
 		e.tr.TermPending += in.enq - in.deliv
+	}
+}
+
+// scanLocked records the library goroutines that did not exist before the case.
+func (e *exec) scanLocked(when string) {
+	for id, fr := range bubble.LibGoroutines() {
+		if _, ok := e.before[id]; ok {
+			continue
+		}
+		dup := false
+		for _, l := range e.tr.Leaked {
+			if strings.HasPrefix(l, fr) {
+				dup = true
+			}
+		}
+		if !dup {
+			e.tr.Leaked = append(e.tr.Leaked, fr+" ("+when+")")
+		}
 	}
 }
 
@@ -655,6 +680,10 @@ func (e *exec) gate(ctx context.Context, it Item) {
 		select {
 		case <-c.done:
 		case <-ctx.Done():
+			if e.s.HandleLag > 0 {
+				// a handler that honours its context but needs a moment to wind up
+				time.Sleep(time.Duration(e.s.HandleLag))
+			}
 			e.mu.Lock()
 			// handler interrupted by its context: the call ends, the item is no longer in processing
 			for i, di := range e.live {
@@ -977,6 +1006,9 @@ func (e *exec) gracefulStop() {
 	e.mu.Unlock()
 	e.helper(func() {
 		e.ad.gstop()
+		if e.cleanup.Load() {
+			return // released by the harness's own teardown (context cancelled): not the discipline's doing
+		}
 		e.mu.Lock()
 		e.tr.GStopReturned = true
 		e.markTerminatedLocked("GracefulStop returned")
@@ -1024,6 +1056,9 @@ func (e *exec) stop(kind string, n int) {
 	for c := 0; c < calls; c++ {
 		e.helper(func() {
 			e.ad.stop() // documented way to wait for completion after a cancel as well
+			if e.cleanup.Load() {
+				return // released by the harness's own teardown (context cancelled): not the discipline's doing
+			}
 			e.mu.Lock()
 			if !e.tr.StopReturned {
 				e.tr.StopReturned = true
@@ -1165,7 +1200,7 @@ func execute1(t *testing.T, s Script, leakScan bool, budget time.Duration) Trace
 	var ep atomic.Pointer[exec]
 	res := bubble.RunBudget(t, budget, func() {
 		e := &exec{s: s, tr: &tr, epoch: time.Now(), quit: make(chan struct{}), inputs: map[uint]*input{}, gens: map[uint]int{},
-			calls: map[int]*call{}, removedSet: map[uint]bool{}, everSet: map[uint]bool{}, configured: map[uint]bool{}, leakScan: leakScan}
+			calls: map[int]*call{}, removedSet: map[uint]bool{}, everSet: map[uint]bool{}, configured: map[uint]bool{}, leakScan: leakScan, before: before}
 		ep.Store(e)
 		unbuf := 0
 		for _, in := range s.Ins {
@@ -1196,12 +1231,9 @@ func execute1(t *testing.T, s Script, leakScan bool, budget time.Duration) Trace
 				e.wait()
 				time.Sleep(10)
 				e.wait()
-				after := bubble.LibGoroutines()
-				for id, fr := range after {
-					if _, ok := before[id]; !ok {
-						tr.Leaked = append(tr.Leaked, fr)
-					}
-				}
+				e.mu.Lock()
+				e.scanLocked("at the end of the run")
+				e.mu.Unlock()
 			}
 			// The discipline has terminated (on its own, or Stop() has returned): nothing of it
 			// may be left, and that must not depend on the context being cancelled afterwards.
